@@ -122,6 +122,14 @@ func c09Exec(x *Ctx) {
 			return
 		}
 		distinctTags[m.Tag] = true
+		for _, pf := range st.pipeFids {
+			if pf == m.Fid && (m.Type == Tstat || (m.Type == Tread && m.Offset >= 1<<40 && m.Offset&(markErr|markWrong) == 0)) {
+				// a pipeline of several request kinds under one tag: answered at once, in arrival order
+				p.SharedTags[m.Tag] = true
+				p.Send(r, Encode(rep, p.Dotu))
+				return
+			}
+		}
 		if m.Type == Tread && m.Offset >= 1<<40 && m.Offset&(markErr|markWrong) != 0 {
 			// a pipelined (Tag interface) or non-blocking read that the server refuses / answers with the wrong type
 			p.SharedTags[m.Tag] = true
